@@ -147,6 +147,79 @@ def _mutation_kinds(c, fnp, f, effs):
                    "adds to / reorders self.%s (%s)" % (".".join(tp), "growing operation" if GROW.search(name) else "not a removing operation"), f.where(e.get("sp")), fnp)
 
 
+def _map_key_order(c, prog):
+    """R6: the union of two key-value maps keeps every pair only if keys that are not equal are not "equal" for the map: for
+    every crate-local type that is (part of) a key of a BTreeMap field of Input/Output/Global, Ord/PartialOrd/PartialEq are
+    compiler-derived, or a hand-written comparison reads every field of the type (a field it skips collapses distinct keys)."""
+    from ..mir import field_accesses
+
+    def split_top(s_):
+        out, d, cur = [], 0, ""
+        for ch in s_:
+            if ch in "<([":
+                d += 1
+            elif ch in ">)]":
+                d -= 1
+            if ch == "," and d == 0:
+                out.append(cur.strip())
+                cur = ""
+            else:
+                cur += ch
+        if cur.strip():
+            out.append(cur.strip())
+        return out
+
+    def base(t):
+        return re.sub(r"<.*>$", "", t.strip())
+    todo = []
+    for owner in MERGES:
+        for fld in prog.types[owner]["variants"][0]["fields"]:
+            m = re.match(r"^std::collections::BTreeMap<(.*)>$", fld["ty"])
+            if m:
+                todo.append(split_top(m.group(1))[0])
+    seen = set()
+    while todo:
+        t = todo.pop().strip()
+        if t.startswith("(") and t.endswith(")"):
+            todo += split_top(t[1:-1])
+            continue
+        m = re.match(r"^(?:std::vec::Vec|std::option::Option|std::boxed::Box)<(.*)>$", t)
+        if m:
+            todo.append(m.group(1))
+            continue
+        b = base(t)
+        if b in seen or b not in prog.types:
+            continue
+        seen.add(b)
+        for v in prog.types[b]["variants"]:
+            for fld in v["fields"]:
+                todo.append(fld["ty"])
+    n = 0
+    for ty in sorted(seen):
+        fields = {f["name"] for v in prog.types[ty]["variants"] for f in v["fields"]}
+        for imp in prog.impls:
+            if base(imp["self_ty"]) != ty:
+                continue
+            tr = (imp.get("trait") or "").split("<")[0]
+            if tr not in ("std::cmp::Ord", "std::cmp::PartialOrd", "std::cmp::PartialEq"):
+                continue
+            mac = (imp.get("sp") or {}).get("mac") or ""
+            n += 1
+            if "derive" in mac:
+                c.inst("R6.map-key-order", "%s: %s derived" % (ty, tr.split("::")[-1]), True, mac, None, ty)
+                continue
+            read = set()
+            for it in imp.get("items", []):
+                if it in prog.fns:
+                    r, _, _ = field_accesses(prog.fns[it].body)
+                    read |= {f for (o, f) in r if o == ty}
+            miss = sorted(fields - read)
+            c.inst("R6.map-key-order", "%s: hand-written %s compares every field" % (ty, tr.split("::")[-1]), not miss,
+                   "fields never read by the comparison: %s (keys differing only there are the same key for the map, one pair is dropped by the union)" % miss,
+                   prog.fns[imp["items"][0]].where() if imp.get("items") and imp["items"][0] in prog.fns else None, ty)
+    c.floor("R6.map-key-order", 12, "raw::Key, ProprietaryKey, ControlBlock and their field types x three comparison traits")
+
+
 def run(c, prog, ctx):
     c.explanation = (
         "Static decision of the structural clauses of C14 on the MIR of the four merge functions: (R1) every field of "
@@ -169,6 +242,7 @@ def run(c, prog, ctx):
     _id_gate(c, prog)
     _xpub_table(c, prog)
     _global_combination(c, prog)
+    _map_key_order(c, prog)
     c.floor("R1.other-consumed", 70, "Input 48-2, Output 20-3, Global 6, TxData 2 counted on the pinned tree")
     c.floor("R2.mutation-kind", 18, "15 map extends, scalars extend/sort/dedup, xpub entry/insert")
     c.floor("R2.no-clearing", 40, "one per merge! expansion and direct assignment")
